@@ -640,7 +640,7 @@ fn line(label: &str, stmts: Vec<SStmt>, fail: Fail, has_value: bool, injectable:
     }
 }
 
-pub const ALPHABET: usize = 26;
+pub const ALPHABET: usize = 27;
 
 /// Template `t` at session position `pos` (names are position-based, so never re-declared).
 fn template(t: usize, pos: usize, env: &mut GEnv) -> SLine {
@@ -822,6 +822,26 @@ fn template(t: usize, pos: usize, env: &mut GEnv) -> SLine {
                 false,
                 false,
             )
+        }
+        26 => {
+            // a block at the top level with a variable of its own (its slot is free again afterwards)
+            let t = format!("t{}", pos);
+            match env.latest("int") {
+                Some(n) => line(
+                    "block-with-local",
+                    vec![st(&format!("{{ stel {t} = 3; {n} = {n} + {t}; }};", t = t, n = n), true), st(&format!("{};", n), false)],
+                    Fail::None,
+                    true,
+                    false,
+                ),
+                None => line(
+                    "block-with-local",
+                    vec![st(&format!("als ja {{ stel {t} = [\"b\", 2.5]; {t}; }};", t = t), true)],
+                    Fail::None,
+                    true,
+                    false,
+                ),
+            }
         }
         25 => {
             // the user just presses enter (or types blanks / a comment): an empty program
@@ -1085,6 +1105,40 @@ impl<'a> SGen<'a> {
         if self.rng.chance(1, 16) {
             let text = *self.rng.pick(&["", " ", "// commentaar", "\t"]);
             return line("empty", vec![st(text, false)], Fail::None, false, true);
+        }
+        if self.rng.chance(1, 10) {
+            // a block / branch / loop body at the top level that declares variables of its own
+            // (block-scoped globals: their slots are free again afterwards) and changes a global
+            let t1 = format!("t{}", self.counters.0);
+            self.counters.0 += 1;
+            let ty = self.with_gen(|g| g.value_ty());
+            let e = self.with_gen(|g| g.expr(&ty, 2));
+            let e = Self::wrap_int(&ty, e);
+            let targets: Vec<Var> = self.globals.iter().filter(|v| v.ty == ty && !(v.ty == Ty::Str && v.min_len > 0)).cloned().collect();
+            let inner = match targets.is_empty() {
+                false => {
+                    let g = self.rng.pick(&targets).name.clone();
+                    format!("stel {t} = {e}; {g} = {t}; {g};", t = t1, e = e, g = g)
+                }
+                true => format!("stel {t} = {e}; {t};", t = t1, e = e),
+            };
+            let head = match self.rng.below(3) {
+                0 => "".to_string(),
+                1 => "als ja ".to_string(),
+                _ => {
+                    // a loop that runs once
+                    let c = format!("t{}", self.counters.0);
+                    self.counters.0 += 1;
+                    return line(
+                        "block-with-local",
+                        vec![st(&format!("stel {c} = 0;", c = c), true), st(&format!("zolang {c} < 1 {{ {c} = {c} + 1; {inner} }};", c = c, inner = inner), true)],
+                        Fail::None,
+                        true,
+                        false,
+                    );
+                }
+            };
+            return line("block-with-local", vec![st(&format!("{}{{ {} }};", head, inner), true)], Fail::None, true, false);
         }
         if !self.failed_names.is_empty() && self.rng.chance(1, 3) {
             // a name that only a failed line declared is free: declare it and read it
